@@ -6,7 +6,7 @@ Harnesses: harness/pkg/supervisor/c20_*_test.go (business controllers through Su
 harness/pkg/object/rawconfigtrafficcontroller/c20_*_test.go (the same plus traffic objects through
 RawConfigTrafficController -> TrafficController).
 
-Phases (VERIF_PHASES): mc, mcn (negative controls of the model), mbt, tv, tvl, tvs (package supervisor), tmbt, ttv, ttvl, ttvs (package rawconfigtrafficcontroller);
+Phases (VERIF_PHASES): mc, mca (Apply path model), mcn (negative controls of the model), ambt, atv (package trafficcontroller: Apply path), mbt, tv, tvl, tvs (package supervisor), tmbt, ttv, ttvl, ttvs (package rawconfigtrafficcontroller);
 tvl / ttvl = TV with long bursts of snapshots and slow watchers; tvs / ttvs = TV of histories whose first burst of snapshots
 arrives while the supervisor is starting (watchers being registered).
 """
@@ -18,6 +18,7 @@ from lib.vlib import jdump
 
 SUP = "pkg/supervisor"
 RCTC = "pkg/object/rawconfigtrafficcontroller"
+TC = "pkg/object/trafficcontroller"
 
 CONTRACT_INV = "INVARIANTS CTypeOK LiveIsSnapshot ExactlyOnce CreatedBeforeEnded\nPROPERTIES PerSnapshot Discharge\n"
 IMPL_INV = ("INVARIANTS CTypeOK LiveIsSnapshot NoForbiddenCallback Reconciled NobodyDies RegistryIsSnapshot WatcherViews\n"
@@ -47,10 +48,16 @@ def impl_cfg(names, biz, gate, pipe, vers, maxsnaps, watchers, panics, pinned=Fa
                "TRUE" if drop else "FALSE", "TRUE" if atomic_register else "FALSE") + inv)
 
 
-def gen_cfg(names, nameseq, biz, gate, kindseq, vers, maxsnaps, panics, canonical=True):
+def apply_cfg(names, gate, pipe, vers, maxsnaps, store_on_inherit=True):
+    return ("SPECIFICATION ASpec\n" + consts(names, [], gate, pipe, vers, maxsnaps, model=True) +
+            "  StoreOnInherit = %s\nVIEW aview\nSYMMETRY NameSym\n" % ("TRUE" if store_on_inherit else "FALSE") +
+            "INVARIANTS CTypeOK LiveIsSnapshot NoForbiddenCallback Reconciled\nPROPERTIES PerSnapshot\n")
+
+
+def gen_cfg(names, nameseq, biz, gate, kindseq, vers, maxsnaps, panics, canonical=True, empty_at=()):
     return ("SPECIFICATION %s\n" % ("GSpec" if canonical else "GSimSpec") + consts(names, biz, gate, [], vers, maxsnaps) +
-            "  MaxPanics = %d\n  Canonical = %s\n  NameSeq <- %s\n  KindSeq <- %s\nINVARIANTS LiveIsSnapshot\n"
-            % (panics, "TRUE" if canonical else "FALSE", nameseq, kindseq))
+            "  MaxPanics = %d\n  Canonical = %s\n  EmptyAt = {%s}\n  NameSeq <- %s\n  KindSeq <- %s\nINVARIANTS LiveIsSnapshot\n"
+            % (panics, "TRUE" if canonical else "FALSE", ", ".join(str(i) for i in empty_at), nameseq, kindseq))
 
 
 def trace_cfg(names, biz, gate, vers=(1, 2, 3)):
@@ -97,6 +104,7 @@ def run(ctx):
         return f
 
     strands = [strand(("mc", _mc, ())),
+               strand(("mca", _mc_apply, ()), ("ambt", _ambt, ()), ("atv", _atv, ())),
                strand(("mcn", _mc_controls, ())),
                strand(("mbt", _mbt, (SUP,)), ("tv", _tv, (SUP, "std"))),
                strand(("tmbt", _mbt, (RCTC,)), ("ttv", _tv, (RCTC, "std"))),
@@ -149,6 +157,20 @@ def _mc(ctx):
         ctx.log("impl layer refines the contract (%s): %d distinct states" % (label, r.distinct))
 
 
+
+
+def _mc_apply(ctx):
+    """the Apply path of the TrafficController (ApplyTrafficGate/ApplyPipeline, Delete*, Clean) refines the contract, too"""
+    q = ctx.quick
+    aruns = [("2 names x (gate, pipeline) x 2 versions, 3 snapshots", apply_cfg(["a", "b"], ["G1"], ["P1"], [1, 2], 3))]
+    if not q:
+        aruns += [("2 names x gate x 3 versions, 4 snapshots", apply_cfg(["a", "b"], ["G1"], [], [1, 2, 3], 4)),
+                  ("3 names x (gate, pipeline) x 1 version, 3 snapshots", apply_cfg(["a", "b", "c"], ["G1"], ["P1"], [1], 3))]
+    for label, cfg in aruns:
+        r = ctx.tlc_mc("LifecycleApply", cfg, label="TrafficController Apply path refines contract: " + label, timeout=1500)
+        ctx.log("Apply path refines the contract (%s): %d distinct states" % (label, r.distinct))
+
+
 def _mc_controls(ctx):
     """negative controls: shapes of the implementation layer that TLC must reject"""
     q = ctx.quick
@@ -180,6 +202,14 @@ def _mc_controls(ctx):
         else:
             ctx.inconclusive("TLC does not reject the late registration of a watcher: the start-up part of the refinement check "
                              "is vacuous\n" + r.out[-2000:])
+    # an Apply whose inherit branch does not store the new generation keeps the first generation for ever: TLC must find that
+    r = ctx.tlc_mc("LifecycleApply", apply_cfg(["a", "b"], ["G1"], [], [1, 2, 3], 3, store_on_inherit=False),
+                   label="Apply path without Store on the inherit branch", expect_ok=False, count=False, timeout=600)
+    if r.violated:
+        ctx.log("model sanity: an Apply that does not store the inherited generation violates %s" % r.violated)
+    else:
+        ctx.inconclusive("TLC does not reject the Apply path that keeps the first generation: the Apply part of the refinement check "
+                         "is vacuous\n" + r.out[-2000:])
     if not q:
         r = ctx.tlc_mc("LifecycleImpl", impl_cfg(["a", "b"], ["K1", "K2"], [], [], [1, 2], 2, ["sup"], 1, recover=False),
                        label="impl without recover()", expect_ok=False, count=False, timeout=600)
@@ -214,9 +244,16 @@ def _gen(ctx, pkg):
         # ... and with one scripted panic: exhaustive for 2 names, sampled (quick) / exhaustive (thorough) for 3
         behs += [b for b in dump("2 names, 2 snapshots, <= 1 panic", gen_cfg(["a", "b"], "Names2", ["K1", "K2"], [], "SupKinds", [1, 2], 2, 1), 2)
                  if any(st["pan"] for st in b)]
+        # sequences that pass through the EMPTY configuration (a snapshot without any object, delivered as such):
+        # all  s1, {}, s3  over 2 names x 2 kinds x 2 versions and all  s1, s2, {}, s4  over 2 names x 1 kind x 2 versions
+        behs += dump("2 names, s1 {} s3, no panic", gen_cfg(["a", "b"], "Names2", ["K1", "K2"], [], "SupKinds", [1, 2], 3, 0, empty_at=(2,)), 3)
+        behs += dump("2 names, 1 kind, s1 s2 {} s4, no panic", gen_cfg(["a", "b"], "Names2", ["K1"], [], "OneKind", [1, 2], 4, 0, empty_at=(3,)), 4)
         if q:
             behs += sim(gen_cfg(["a", "b", "c"], "Names3", ["K1", "K2"], [], "SupKinds", [1, 2], 3, 2, False), 400)
         else:
+            behs += [b for b in dump("2 names, s1 {} s3, <= 1 panic", gen_cfg(["a", "b"], "Names2", ["K1", "K2"], [], "SupKinds", [1, 2], 3, 1, empty_at=(2,)), 3)
+                     if any(st["pan"] for st in b)]
+            behs += dump("3 names, 1 kind, 1 version, s1 {} s3 {} s5", gen_cfg(["a", "b", "c"], "Names3", ["K1"], [], "OneKind", [1], 5, 0, empty_at=(2, 4)), 5)
             pan3 = [b for b in dump("3 names, 2 snapshots, <= 1 panic", gen_cfg(["a", "b", "c"], "Names3", ["K1", "K2"], [], "SupKinds", [1, 2], 2, 1), 2)
                     if any(st["pan"] for st in b)]
             behs += rng.sample(pan3, min(len(pan3), 8000))
@@ -225,6 +262,9 @@ def _gen(ctx, pkg):
     else:
         behs += dump("2 names, 2 snapshots, controller + gate + pipeline-category kinds, no panic",
                      gen_cfg(["a", "b"], "Names2", ["K1"], ["G1", "P1"], "TrafKinds", [1, 2], 2, 0), 2)
+        # ... through the EMPTY configuration (see above)
+        behs += dump("2 names, controller + gate + pipeline-category kinds, %s, s1 {} s3, no panic" % ("1 version" if q else "2 versions"),
+                     gen_cfg(["a", "b"], "Names2", ["K1"], ["G1", "P1"], "TrafKinds", [1] if q else [1, 2], 3, 0, empty_at=(2,)), 3)
         if q:
             behs += sim(gen_cfg(["a", "b", "c"], "Names3", ["K1"], ["G1", "P1"], "TrafKinds", [1, 2], 3, 2, False), 300)
         else:
@@ -299,6 +339,112 @@ def _mbt(ctx, pkg):
     ctx.sample({"kind": "tlc-behaviour", "pkg": short, "steps": behs[0]})
     ctx.cov.setdefault("exhaustive_sets", []).extend("%s: %s" % (short, e) for e in exhaustive)
     ctx.log("%s: %d behaviours replayed, %d callbacks compared" % (short, len(behs), ncb))
+
+
+# ------------------------------------------------------------------------------------------------
+# the Apply path of the TrafficController (package trafficcontroller)
+def _ambt(ctx):
+    q = ctx.quick
+    short = "trafficcontroller"
+    behs, exhaustive = [], []
+
+    def dump(label, cfg, length):
+        recs = ctx.tlc_dump("Lifecycle_Gen", cfg, label=label, timeout=1500)
+        full = [b for b in recs if len(b) == length]
+        exhaustive.append("%s: %d" % (label, len(full)))
+        return full
+
+    def sim(cfg, num, length):
+        return [b[-1] for b in ctx.tlc_simulate("Lifecycle_Gen", cfg, num=num, depth=length + 1, timeout=1500) if b and len(b[-1]) == length]
+
+    G = ["G1", "P1"]
+    # all canonical sequences of 3 snapshots (init, change, change / unchanged / delete ...) over 2 names x (gate, pipeline) x 2 versions
+    behs += dump("2 names, 3 snapshots, no panic", gen_cfg(["a", "b"], "Names2", [], G, "ApplyKinds", [1, 2], 3, 0), 3)
+    if q:
+        behs += sim(gen_cfg(["a", "b", "c"], "Names3", [], G, "ApplyKinds", [1, 2, 3], 6, 2, False), 500, 6)
+    else:
+        behs += [b for b in dump("2 names, 3 snapshots, <= 1 panic", gen_cfg(["a", "b"], "Names2", [], G, "ApplyKinds", [1, 2], 3, 1), 3)
+                 if any(st["pan"] for st in b)]
+        behs += dump("2 names, gate only, 3 versions, 4 snapshots, no panic", gen_cfg(["a", "b"], "Names2", [], ["G1"], "GateOnly", [1, 2, 3], 4, 0), 4)
+        behs += sim(gen_cfg(["a", "b", "c"], "Names3", [], G, "ApplyKinds", [1, 2, 3], 8, 3, False), 6000, 8)
+    random.Random(ctx.seed * 7919 + 3).shuffle(behs)
+    rc, out = ctx.go_test(TC, "^TestVerifC20Build$")
+    if rc != 0:
+        ctx.inconclusive("C20 harness does not run in %s:\n%s" % (TC, out[-3000:]))
+    inp = ctx.write_ndjson("c20_tc_in.ndjson", behs)
+    outp = ctx.path("c20_tc_out.ndjson")
+    rc, out = ctx.go_test(TC, "^TestVerifC20ApplyReplay$", env={"VERIF_IN": inp, "VERIF_OUT": outp}, timeout=1500)
+    recs = ctx.read_ndjson(outp)
+    summ = [x for x in recs if x.get("k") == "summary"]
+    if c20_crash(out):
+        ctx.violation({"kind": "crash", "pkg": short}, "a scripted panic in a lifecycle callback was not recovered and killed the process "
+                      "(the other objects of the snapshot are never reconciled)", out[-4000:])
+        return
+    if rc != 0 or not summ:
+        ctx.inconclusive("C20 Apply replay harness failed in %s:\n%s" % (TC, out[-3000:]))
+    for m in recs:
+        if m.get("k") == "mismatch":
+            ctx.violation(_sig(m, TC), "%s (Apply path): step %d, name %s (%s): real code %s, contract %s" % (
+                short, m["step"], m["name"], m.get("trans"), m["got"], m["exp"]), m)
+    if summ[0]["behaviours"] != len(behs):
+        ctx.inconclusive("C20: %d of %d behaviours replayed in %s" % (summ[0]["behaviours"], len(behs), TC))
+    if summ[0]["callbacks"] == 0:
+        ctx.inconclusive("C20: no callback observed in %s" % TC)
+    # vacuity guard: chains of generations (a name changed at least twice in a row, then deleted)
+    chains = sum(1 for b in behs if any(
+        [st["trans"][x] for st in b].count("update") >= 2 for x in b[0]["trans"]))
+    if chains < 20:
+        ctx.inconclusive("C20: only %d behaviours with two successive changes of one name on the Apply path" % chains)
+    ctx.evals(len(behs))
+    ctx.traces(len(behs))
+    for b in behs:
+        if _interesting(b):
+            ctx.nontrivial({"p": short, "b": [[st["snap"], st["pan"]] for st in b]})
+    ctx.sample({"kind": "tlc-behaviour", "pkg": short, "steps": behs[0]})
+    ctx.cov.setdefault("exhaustive_sets", []).extend("%s: %s" % (short, e) for e in exhaustive)
+    ctx.cov["trafficcontroller_apply"] = {"behaviours": len(behs), "with_two_successive_changes_of_a_name": chains}
+    ctx.log("%s (Apply path): %d behaviours replayed, %d callbacks compared" % (short, len(behs), summ[0]["callbacks"]))
+
+
+def _atv(ctx):
+    short = "trafficcontroller"
+    n, steps = (30, 30) if ctx.quick else (400, 40)
+    tp = ctx.path("c20_tc_trace.ndjson")
+    rc, out = ctx.go_test(TC, "^TestVerifC20ApplyTrace$", env={"VERIF_OUT": tp, "VERIF_N": n, "VERIF_STEPS": steps, "VERIF_NAMES": 3,
+                                                               "VERIF_SALT": 0}, timeout=1500)
+    ev = ctx.read_ndjson(tp)
+    if c20_crash(out):
+        ctx.violation({"kind": "crash", "pkg": short}, "a scripted panic in a lifecycle callback was not recovered and killed "
+                      "the process (the other objects of the snapshot are never reconciled)", out[-4000:])
+        return
+    if rc != 0 or not ev:
+        ctx.inconclusive("C20 Apply trace harness failed in %s:\n%s" % (TC, out[-3000:]))
+    ctx.evals(n)
+    if sum(1 for e in ev if e.get("ev") == "cb" and e.get("op") == "inherit") < n:
+        ctx.inconclusive("C20: Apply traces with hardly any inherit in %s" % TC)
+    rounds = 0
+    while ev and rounds < (8 if ctx.quick else 30):
+        rounds += 1
+        p = ctx.write_ndjson("c20_tc_tv_%d.ndjson" % rounds, ev)
+        tr = ctx.tlc_trace("Lifecycle_Trace", trace_cfg(["a", "b", "c"], [], ["G1", "P1"]), p, timeout=1200)
+        segs = _segments(ev)
+        if tr.accepted:
+            ctx.traces(len(segs))
+            for s, e in segs:
+                if any(x.get("op") in ("inherit", "close") for x in ev[s:e]):
+                    ctx.nontrivial({"t": [x.get("snap") for x in ev[s:e] if x.get("ev") == "snap"]})
+            ctx.sample({"kind": "recorded-trace", "pkg": short, "events": ev[:10]})
+            break
+        bad = min(tr.hwm, len(ev) - 1)
+        s, e = [(s, e) for s, e in segs if s <= bad < e][0]
+        seg = ev[s:bad + 1]
+        ctx.traces(len([1 for s2, e2 in segs if e2 <= s]))
+        ctx.violation(_trace_sig(seg, TC) if not tr.inv else {"kind": "trace", "pkg": short, "inv": tr.inv},
+                      "%s (Apply path): recorded history is not a behaviour of the contract (first unexplained event #%d: %s%s)" % (
+                          short, bad + 1, jdump({k: v for k, v in ev[bad].items() if k != "seq"}),
+                          ", invariant %s" % tr.inv if tr.inv else ""), seg)
+        ev = ev[e:]
+    ctx.log("%s: TV of the Apply path: %d histories x %d snapshots, %d TLC round(s)" % (short, n, steps, rounds))
 
 
 def c20_crash(out):
@@ -376,6 +522,34 @@ def _long_burst_coverage(ctx, ev, short):
     ctx.nontrivial({"p": short, "long-bursts": full})
 
 
+def _empty_coverage(ctx, ev, short, gname):
+    """vacuity guard of the empty-configuration class: snapshots without any object that made at least one live name
+    disappear and were followed, before the next barrier, by a snapshot with objects (so that the registry gets the empty
+    configuration and nothing else in between)"""
+    hits = total = 0
+    prev = None
+    pending = False
+    for e in ev:
+        if e.get("ev") == "reset":
+            prev, pending = None, False
+        elif e.get("ev") == "snap":
+            empty = all(o["k"] == "none" for o in e["snap"].values())
+            had = prev is not None and any(o["k"] != "none" for o in prev.values())
+            if empty and had:
+                total += 1
+                pending = True
+            elif not empty and pending:
+                hits += 1
+                pending = False
+            prev = e["snap"]
+        elif e.get("ev") == "quiet":
+            pending = False
+    ctx.cov.setdefault("%s_empty_configurations" % short, {})[gname] = {"last_objects_disappear": total, "followed_within_burst": hits}
+    if hits < 2:
+        ctx.inconclusive("C20: only %d histories of %s / %s pass through the empty configuration inside a burst" % (hits, short, gname))
+    ctx.nontrivial({"p": short, "g": gname, "through-empty": hits})
+
+
 def _startup_coverage(ctx, ev, short, n):
     """vacuity guard of the start-up group: histories in which a watcher was registered (NewWatcher ran its filter over a
     non-empty registry) while further snapshots were waiting at the syncer channel"""
@@ -446,6 +620,8 @@ def _tv(ctx, pkg, which):
             _long_burst_coverage(ctx, ev, short)
         if su and not last_group:
             _startup_coverage(ctx, ev, short, n)
+        if not last_group:
+            _empty_coverage(ctx, ev, short, gname)
         # validate; a rejected history is reported, cut out, and the rest validated again
         rounds = 0
         while ev and rounds < (8 if ctx.quick else 30):
